@@ -1431,11 +1431,15 @@ WHERE id IN (`, nil, itemIDs)
 
 // unixNanoSaturating is t.UnixNano() for the instants an integer column of
 // nanoseconds can hold, and the largest such value for later ones: UnixNano
-// wraps around after the year 2262, which turned a very long nack delay into a
-// next_run_at in the past.
+// wraps around after the year 2262 (and before 1678), which turned a very long
+// nack delay into a next_run_at in the past and a `before` filter outside that
+// range into its opposite.
 func unixNanoSaturating(t time.Time) int64 {
 	if t.After(time.Unix(0, math.MaxInt64)) {
 		return math.MaxInt64
+	}
+	if t.Before(time.Unix(0, math.MinInt64)) {
+		return math.MinInt64
 	}
 	return t.UnixNano()
 }
@@ -1888,7 +1892,7 @@ WHERE state = ?`
 	}
 	if !req.Before.IsZero() {
 		query += " AND received_at < ?"
-		args = append(args, req.Before.UnixNano())
+		args = append(args, unixNanoSaturating(req.Before))
 	}
 	query += " ORDER BY received_at DESC, id DESC LIMIT ?"
 	args = append(args, limit)
@@ -2068,7 +2072,7 @@ WHERE 1 = 1`
 	}
 	if !req.Before.IsZero() {
 		query += " AND received_at < ?"
-		args = append(args, req.Before.UnixNano())
+		args = append(args, unixNanoSaturating(req.Before))
 	}
 	query += " ORDER BY received_at " + orderByReceived + ", id " + orderByID + " LIMIT ?"
 	args = append(args, limit)
@@ -2730,7 +2734,7 @@ WHERE 1 = 1`
 	}
 	if !req.Before.IsZero() {
 		query += " AND received_at < ?"
-		args = append(args, req.Before.UnixNano())
+		args = append(args, unixNanoSaturating(req.Before))
 	}
 
 	if len(states) == 1 {
@@ -2844,7 +2848,7 @@ WHERE 1 = 1`
 	}
 	if !req.Before.IsZero() {
 		query += " AND created_at < ?"
-		args = append(args, req.Before.UnixNano())
+		args = append(args, unixNanoSaturating(req.Before))
 	}
 	query += " ORDER BY created_at DESC, id DESC LIMIT ?"
 	args = append(args, limit)
